@@ -54,6 +54,18 @@ def fill(msg, rnd, full):
             el.value = 0x00100010
         elif vr == 'LO':
             el.value = 'c' * rnd.randint(1, 20)
+    if rnd.random() < 0.2:
+        # optional command elements the message class does not list are added the only way
+        # there is - through the command set (e.g. Affected SOP Class UID of an N-GET-RSP, Error
+        # Comment of a failure response) - in whatever order the application thinks of them
+        extra = [(0x0902, 'LO', 'e' * rnd.randint(1, 9)), (0x0903, 'US', rnd.randrange(65536)),
+                 (0x1000, 'UI', uid_of_len(rnd, rnd.randint(3, 20))),
+                 (0x0002, 'UI', uid_of_len(rnd, rnd.randint(3, 20))),
+                 (0x0600, 'AE', 'DEST')]
+        rnd.shuffle(extra)
+        for num, vr, val in extra[:rnd.randint(1, 3)]:
+            if (0x0000, num) not in cs:
+                cs.add_new((0x0000, num), vr, val)
 
 
 def plan(rnd, max_len):
@@ -83,7 +95,7 @@ def plan(rnd, max_len):
 
 
 def run(seed, local_max, peer_max, specs=None, timeout=3600, delivery='random', nassoc=1,
-        senders=1, fine=None, chatty=0):
+        senders=1, fine=None, chatty=0, rel_mid=0):
     """-> dict: world, assocs = [dict(peer, sends, result, user tasks)], and for nassoc == 1 the
     flat keys peer/sends/result/user for the single association.
 
@@ -91,7 +103,9 @@ def run(seed, local_max, peer_max, specs=None, timeout=3600, delivery='random', 
     acceptor).  senders > 1: that many caller threads share ONE association object.
     fine: set of function names for line-level pre-emption (None = off).
     chatty = k > 0: full-duplex traffic - the peer sends a small complete message of its own for
-    every k-th P-DATA-TF PDU it reads, i.e. while the entity is in the middle of its messages."""
+    every k-th P-DATA-TF PDU it reads, i.e. while the entity is in the middle of its messages.
+    rel_mid = k > 0: the peer asks for release behind the k-th PDU it reads; the entity's user
+    finishes what it was sending (P-DATA is legal until it answers) and then answers."""
     from pynetdicom2 import applicationentity, sopclass, dimsemessages
     from . import preempt
     rnd = random.Random('ds/%s' % seed)
@@ -113,12 +127,17 @@ def run(seed, local_max, peer_max, specs=None, timeout=3600, delivery='random', 
 
             def on_pdu(peer_, p_, seen=seen):
                 seen['n'] += 1
+                if rel_mid:
+                    if seen['n'] == rel_mid:
+                        peer_.send(rc.enc_release_rq())
+                    return
                 if seen['n'] % chatty == 0:
                     peer_.send_message(1, {0x0002: rc.VERIFICATION, 0x0100: 0x8030,
                                            0x0120: seen['n'] & 0xffff, 0x0800: rc.NO_DATASET,
                                            0x0900: 0}, max_length=65536)
             world.serve_peer(addr, lambda sock, on_pdu=on_pdu: peers.ScriptedAcceptor(
-                world.sim, sock, max_length=peer_max, on_pdu=on_pdu if chatty else None))
+                world.sim, sock, max_length=peer_max,
+                on_pdu=on_pdu if (chatty or rel_mid) else None))
             ae = world.make_ae(applicationentity.ClientAE, 'CLI%d' % a_i, [rc.IMPLICIT_LE],
                                local_max)
             ae.timeout = timeout
@@ -187,7 +206,7 @@ def run(seed, local_max, peer_max, specs=None, timeout=3600, delivery='random', 
                     rec['users'] += extra
                     send_all(a, rec['specs'][0], 'a%ds0' % a_i)
                     world.sim.wait(lambda: all(t.done for t in extra), 600.0, 'join')
-                    if chatty:
+                    if chatty or rel_mid:
                         # let everything go out, then take what the peer has sent meanwhile
                         # (leaving the association looks at the first thing that arrives)
                         world.sim.wait(lambda: a.dul.from_service_user.empty() and
@@ -196,6 +215,13 @@ def run(seed, local_max, peer_max, specs=None, timeout=3600, delivery='random', 
                         while not a.dul.to_service_user.empty():
                             rec['result'].setdefault('received', []).append(
                                 a.dul.to_service_user.get(False))
+                        if any(getattr(x, 'pdu_type', None) == 5
+                               for x in rec['result'].get('received', [])):
+                            # the peer has asked for release: answer it, and leave without
+                            # asking for a release of our own
+                            from pynetdicom2 import pdu as _pdu
+                            a.dul.send(_pdu.AReleaseRpPDU())
+                            a.association_established = False
                 rec['result']['done'] = True
             rec['users'].append(world.spawn(user, 'user%d' % a_i))
         world.run(tmax=timeout + 100)
